@@ -42,7 +42,7 @@ class C13(Prop):
             "ClientHello / ServerHello records appear verbatim as packets of their own; QUIC: every stream-data piece of the "
             "run without -a occurs in the same order and direction inside the -a datagrams; one evaluation = one pair; "
             "non-trivial = the run without -a exported data and -a changed the output; distinct = spec digests")
-    reach = ["tls", "quic", "a_added_packets", "hello_spans_packets", "multi_conn"]
+    reach = ["tls", "quic", "a_added_packets", "hello_spans_packets", "multi_conn", "alert_followed_by_data"]
 
     def plan(self, tier):
         p = super().plan(tier)
@@ -57,6 +57,10 @@ class C13(Prop):
                "quic": {"net": {"delay": 50, "dup": 30, "_D": 3}}}
         spec = gen.gen_mixed_world(R.fork("world"), cfg)
         spec["prop"] = "C13"
+        for c in spec["conns"]:
+            if c["proto"] == "tls" and len(c.get("recs", [])) >= 2 and R.chance(15):
+                c["alert_mid"] = R.range(1, len(c["recs"]) - 1)
+                c["close"] = False
         return spec
 
     def check(self, lane, spec):
@@ -93,6 +97,8 @@ class C13(Prop):
             conn = [x for x in spec["conns"] if x["id"] == c["id"]][0]
             if c["proto"] == "tls":
                 out.count("reach:tls")
+                if conn.get("alert_mid") is not None:
+                    out.count("reach:alert_followed_by_data")
                 seq0 = self.tls_seq(f0, c["id"])
                 seq1 = self.tls_seq(f1, c["id"])
                 if seq0 and seq0 != seq1:
